@@ -573,7 +573,7 @@ REGISTRY = {
     "C10": Spec("FFSM2.Props.C10", ["config", "ids"], c10_run, extra=("FFSM2.Props.History", "FFSM2.Props.PlanHistory")),
     "C18": Spec("FFSM2.Props.C18", [], c18_run, extra=("FFSM2.Props.StreamReach",), level="other", explanation="Partial by nature: a theorem about a model cannot exhibit heap allocation or undefined behaviour of compiled C++. Executed here: both correspondence harnesses rebuilt with ASan+UBSan (-fno-sanitize-recover=all) and run on generated in-contract histories (payloads of alignment 1/8/16, plans at full capacity, n=1..7 quick / up to 64 thorough); a valgrind memcheck pass of the machine harness with the memory under every fresh instance marked indeterminate; an allocation probe that wraps malloc/calloc/realloc/free and operator new/delete around a scenario touching the whole API; thorough: nm -u symbol scan. The model-side index/range/alignment theorems are listed in DESIGN.md §9 C18."),
     "C19": Spec("FFSM2.Props.C19", ["resets"], c19_run, extra=("FFSM2.Props.NeutralHistory", "FFSM2.Props.Resets"), level="other", explanation="Partial by nature: 'compiles under every switch/standard/compiler' and 'the shipped header equals the amalgamation' are facts about files and compilers. Executed here: -fsyntax-only of an API-instantiating TU under all 256 switch combinations + FFSM2_ENABLE_ALL (quick: g++ C++11 and clang++ C++20; thorough: 2 compilers x 4 standards); tools/join.py re-run on a scratch copy and byte-compared; a feature-free scenario run under 8 (thorough 16) feature subsets + STRUCTURE_REPORT/DEBUG_STATE_TYPE/DISABLE_TYPEINDEX whose projected traces must be identical and equal to the model's."),
-    "C01": Spec("FFSM2.Props.C01", ["ids", "resets"], machine_run("C01"), extra=("FFSM2.Props.History", "FFSM2.Props.Resets")),
+    "C01": Spec("FFSM2.Props.C01", ["ids", "resets"], machine_run("C01"), extra=("FFSM2.Props.History", "FFSM2.Props.Resets", "FFSM2.Props.BlankHistory")),
     "C02": Spec("FFSM2.Props.C02", ["ids", "config"], machine_run("C02", ("random", "pingpong")), extra=("FFSM2.Props.History", "FFSM2.Props.OutcomeHistory")),
     "C03": Spec("FFSM2.Props.C03", ["ids", "config"], machine_run("C03", ("random", "pingpong")), extra=("FFSM2.Props.History", "FFSM2.Props.VetoHistory")),
     "C04": Spec("FFSM2.Props.C04", ["config"], machine_run("C04", ("random", "pingpong")), extra=("FFSM2.Props.History",)),
@@ -583,7 +583,7 @@ REGISTRY = {
     "C08": Spec("FFSM2.Props.C08", ["ids", "config"], machine_run("C08", ("random", "planveto", "statusfirst")), extra=("FFSM2.Props.PlanHistory", "FFSM2.Props.ConsumeHistory")),
     "C09": Spec("FFSM2.Props.C09", ["ids", "config"], machine_run("C09", ("random", "planveto", "reactivate", "statusfirst")), extra=("FFSM2.Props.History", "FFSM2.Props.OutcomesHistory")),
     "C11": Spec("FFSM2.Props.C11", ["ids"], machine_run("C11", ("random", "replica")), extra=("FFSM2.Props.History", "FFSM2.Props.OutcomeHistory")),
-    "C12": Spec("FFSM2.Props.C12", ["ids", "serial", "bitwidth", "contain", "typebits", "buffers", "resets"], c12_run, extra=("FFSM2.Props.History", "FFSM2.Props.SerialHistory", "FFSM2.Props.Resets")),
+    "C12": Spec("FFSM2.Props.C12", ["ids", "serial", "bitwidth", "contain", "typebits", "buffers", "resets"], c12_run, extra=("FFSM2.Props.History", "FFSM2.Props.SerialHistory", "FFSM2.Props.Resets", "FFSM2.Props.BlankHistory")),
     "C16": Spec("FFSM2.Props.C16", ["ids"], machine_run("C16"), extra=("FFSM2.Props.History", "FFSM2.Props.RecordsHistory", "FFSM2.Props.ActRecordsHistory")),
     "C17": Spec("FFSM2.Props.C17", ["ids"], c17_run, extra=("FFSM2.Props.History",)),
 }
